@@ -285,6 +285,10 @@ unsigned MessageBase::copy_legal(MessageBase *to, bool force) const
 			if (pp._field_traits & FieldTrait::group && (gb = find_group(pp._fnum)))
 			{
 				GroupBase *gb1(to->find_group(pp._fnum));
+				if (!gb1 && (gb1 = to->create_nested_group(pp._fnum)))	// e.g. the header's groups are not pre-built by its ctor
+					to->add_group(gb1);
+				if (!gb1)
+					throw InvalidRepeatingGroup(pp._fnum, FILE_LINE);
 				for (const auto *qq : gb->_msgs)
 				{
 					MessageBase *grc(gb1->create_group(true));
